@@ -299,16 +299,14 @@ def num_ok(e):
 
 
 def enc_ok(e):
-    """shape invariants the proved parse_value contracts require; string / binary lengths are fixed or looked up (fields
-    whose length comes from an earlier parameter are proved on packets whose length references are integers - C07 - and
-    are covered inside the walk by the bounded stand-in)"""
+    """shape invariants the proved parse_value contracts require"""
     return (implies(cls_is(e, 'IntegerDataEncoding'),
                     num_ok(e) and (e.encoding == 'unsigned' or e.encoding == 'signed' or e.encoding == 'twosComplement')) and
             implies(cls_is(e, 'FloatDataEncoding'), num_ok(e)) and
             implies(cls_is(e, 'StringDataEncoding'),
-                    is_none(e.length_linear_adjuster) and is_none(e.dynamic_length_reference)) and
+                    is_none(e.length_linear_adjuster) or (is_none(e.fixed_length) and not is_none(e.dynamic_length_reference))) and
             implies(cls_is(e, 'BinaryDataEncoding'),
-                    is_none(e.linear_adjuster) and is_none(e.size_reference_parameter)))
+                    is_none(e.linear_adjuster) or (is_none(e.fixed_size_in_bits) and not is_none(e.size_reference_parameter))))
 
 
 @opaque('rec', 'bool')
@@ -318,6 +316,7 @@ def param_ok(p):
     return ((cls_is(p.parameter_type, 'IntegerParameterType') or cls_is(p.parameter_type, 'FloatParameterType') or
              cls_is(p.parameter_type, 'StringParameterType') or cls_is(p.parameter_type, 'BinaryParameterType') or
              cls_is(p.parameter_type, 'BooleanParameterType') or
+             cls_is(p.parameter_type, 'AbsoluteTimeParameterType') or cls_is(p.parameter_type, 'RelativeTimeParameterType') or
              (cls_is(p.parameter_type, 'EnumeratedParameterType') and
               cls_is(p.parameter_type.encoding, 'IntegerDataEncoding'))) and
             enc_ok(p.parameter_type.encoding))
